@@ -1,8 +1,11 @@
 package rt
 
 import (
+	"errors"
 	"fmt"
 	"testing"
+
+	acommon "github.com/open-telemetry/otel-arrow/pkg/otel/common/arrow"
 
 	colarspb "github.com/open-telemetry/otel-arrow/api/experimental/arrow/v1"
 
@@ -15,6 +18,18 @@ import (
 // dictionary monitor attached. Findings of property `prop` are violations; the others are
 // only counted (they belong to their own check).
 func frameHistory(c *vc.Case, h *History, o OptSet, prop string) (*FrameMon, *Stream) {
+	return frameHistoryF(c, h, o, prop, nil)
+}
+
+// frameHistoryF: failFirstWrite(k) makes the FIRST IPC write of batch k's Produce call fail (verif hook
+// `ipc-write`): nothing of that batch has been written to any sub-stream yet, so the producer's streams
+// stay exactly where they were and the caller may go on using it; the failed call emits no batch.
+func frameHistoryF(c *vc.Case, h *History, o OptSet, prop string, failFirstWrite func(k int) bool) (*FrameMon, *Stream) {
+	if failFirstWrite != nil {
+		faultMu.Lock()
+		defer faultMu.Unlock()
+		defer func() { acommon.VerifFault = nil }()
+	}
 	s := NewStream(o)
 	fm := NewFrameMon(o.LimitValue())
 	refused := 0
@@ -34,8 +49,24 @@ func frameHistory(c *vc.Case, h *History, o OptSet, prop string) (*FrameMon, *St
 			_ = capture(func() { _ = s.P.GetAndResetStats() })
 			c.Count("stats_polls_between_batches", 1)
 		}
+		if failFirstWrite != nil {
+			acommon.VerifFault = nil
+			if failFirstWrite(k) {
+				fired := false
+				acommon.VerifFault = func(site string) error {
+					if site == "ipc-write" && !fired {
+						fired = true
+						return errInjected
+					}
+					return nil
+				}
+			}
+		}
 		bar, err, pi := s.Encode(b)
 		c.Count("batches", 1)
+		if err != nil && errors.Is(err, errInjected) {
+			c.Count("produce_calls_failed_on_their_first_ipc_write", 1)
+		}
 		if pi != nil {
 			// C08's business; the stream is dead afterwards
 			c.Count("producer_panics_not_this_property", 1)
@@ -96,11 +127,11 @@ func TestC12(t *testing.T) {
 	carve, carveNames := carveFor("C12")
 	r.Meta(vc.Meta{
 		Level:       "exploration",
-		Rule:        "case = one stream history (single signal or traces/logs/metrics interleaved on ONE producer; random dictionary limit / reset threshold / zstd; cardinality ramps that force schema changes and dictionary resets; histories with refused oversize batches) with periodic GetAndResetStats() calls between batches, whose every emitted BatchArrowRecords is checked online, and a second time by a lagging receiver that frames the batches exactly as they were returned (not cloned) after the whole history has been produced: batch id = previous+1, first payload = main type, payload types unique, related payloads non-empty, schema id write-once per (type, schema) and never reused after retirement, per-id IPC message sequence [Schema] Dict* RecordBatch without trailing bytes, an independent ipc.Reader per schema id yields exactly one record per payload with all dictionary indices in range. Non-trivial = history with >=1 retired schema id or >=1 dictionary replacement. Distinct = (script, signals, options, #retired ids, #replacements).",
+		Rule:        "case = one stream history (single signal or traces/logs/metrics interleaved on ONE producer; random dictionary limit / reset threshold / zstd; cardinality ramps that force schema changes and dictionary resets; histories with refused oversize batches; histories in which Produce calls fail on their first IPC write - injected through the verif hook, nothing written - and the producer is used on) with periodic GetAndResetStats() calls between batches, whose every emitted BatchArrowRecords is checked online, and a second time by a lagging receiver that frames the batches exactly as they were returned (not cloned) after the whole history has been produced: batch id = previous+1, first payload = main type, payload types unique, related payloads non-empty, schema id write-once per (type, schema) and never reused after retirement, per-id IPC message sequence [Schema] Dict* RecordBatch without trailing bytes, an independent ipc.Reader per schema id yields exactly one record per payload with all dictionary indices in range. Non-trivial = history with >=1 retired schema id or >=1 dictionary replacement. Distinct = (script, signals, options, #retired ids, #replacements).",
 		Assumptions: []string{"the independent reader is arrow-go's ipc package (independent of the repository's Consumer, not of the Arrow library)", "sampled histories"},
 		Gates: map[string]map[string]int{
-			"quick":    {"retired_schema_ids": 100, "payloads": 3000, "obs.reset": 1, "ipc.dictionary_msgs": 100, "refused_batches": 8},
-			"thorough": {"retired_schema_ids": 2000, "payloads": 60000, "obs.reset": 5, "ipc.dictionary_msgs": 2000, "refused_batches": 30},
+			"quick":    {"retired_schema_ids": 100, "payloads": 3000, "obs.reset": 1, "ipc.dictionary_msgs": 100, "refused_batches": 8, "produce_calls_failed_on_their_first_ipc_write": 60},
+			"thorough": {"retired_schema_ids": 2000, "payloads": 60000, "obs.reset": 5, "ipc.dictionary_msgs": 2000, "refused_batches": 30, "produce_calls_failed_on_their_first_ipc_write": 600},
 		},
 		Excluded: carveNames,
 	})
@@ -159,6 +190,30 @@ func TestC12(t *testing.T) {
 		c.FP(h.Script, o.String())
 		c.Nontrivial(true)
 		c.Sample(map[string]any{"script": h.Script, "options": o.String(), "batches": h.Len(), "emitted": fm.Batches})
+	})
+	// Produce calls that fail before anything was written (injected failure of the batch's first IPC write):
+	// the call emits nothing and consumes no batch id; the batches emitted before and after it must form
+	// one gap-free, well-framed stream
+	r.Layer("failed-produce", e.Pick(30, 300), func(c *vc.Case) {
+		g := gen.New(c.R, gen.DValid)
+		g.Carve = carve
+		sigs := sigSets[c.R.IntN(len(sigSets))]
+		o := RandomOpts(c.R)
+		o.SpanOrder, o.A16, o.A32 = -1, -1, -1
+		h := GenHistory(c.R, g, sigs, e.Pick(12, 30), 12)
+		fails := map[int]bool{}
+		for k := 0; k < h.Len(); k++ {
+			if c.R.IntN(4) == 0 {
+				fails[k] = true
+			}
+		}
+		fails[c.R.IntN(h.Len())] = true
+		fm, _ := frameHistoryF(c, h, o, "C12", func(k int) bool { return fails[k] })
+		c.FP("failed-produce", h.Script, fmt.Sprint(sigs), o.String(), fmt.Sprint(len(fails)))
+		c.Nontrivial(fm.Batches >= 2)
+		if c.Idx < 4 {
+			c.Sample(map[string]any{"layer": "failed-produce", "script": h.Script, "batches": h.Len(), "failed_produce_calls": len(fails), "emitted": fm.Batches})
+		}
 	})
 	// cardinality ramps under small limits: schema changes by overflow, resets under an unchanged schema
 	r.Layer("ramp", e.Pick(24, 240), func(c *vc.Case) {
